@@ -16,16 +16,25 @@
     schedule in real threads and, with the observed trace, in the compiled model: per-thread outputs ==
     model outputs == the schedule-independent prediction `den` (theorem objs_results), the model needs
     exactly the steps the real threads took, the published hashes are the model's cache entries.
+(C2) the same for `Model/SharedList.lean` (props/c18lists.py): programs of `sortBy` / `read` over REAL Python lists
+    shared by the threads and the real queries.order_by (every key-selector call a scheduling point) under a schedule
+    vs the model in `SortMode.copy` with the observed trace - outputs, `den`, exact step count, lists afterwards.
 (D) free-running threads under a 1 us switch interval (supporting only).
 (E) dynamic side of `C18Gen.no_shared_writes`: every Context written during (A) was created by the writing
     thread; every OrderingIterable / GroupAggregator written was created by the writing thread.
 (F) line-granularity schedules: every LINE event of code in the yaql package is a scheduling point
     (sys.monitoring); seeded bursty schedules, same oracle as (A) - the deterministic, replayable form of (D).
+(H) raw mutable host values in the shared context (props/c18lists.py): lists / dicts / sets (nested too) the host
+    stored unconverted, reached as variables, as the document of an engine with yaql.convertInputData off and as
+    host function results; a sweep of every library function over every parameter that admits such a value, 2-3
+    threads on the SAME object, scheduling points inside the lambdas; oracle of (A) with the snapshot comparing the
+    variable values, also after every statement evaluated alone.
 """
 import itertools
 import json
 import operator
 import os
+import re
 import signal
 import sys
 import threading
@@ -37,7 +46,7 @@ import sched
 
 ID = 'C18'
 LEAN_MODULES = ['Yaql.Props.C18', 'Yaql.Props.C18Objs', 'Yaql.Props.C18Gen', 'Yaql.Props.C18Eval', 'Yaql.Props.EvalStore',
-                'Yaql.Props.C18Store']
+                'Yaql.Props.C18Store', 'Yaql.Props.C18Lists']
 REQUIRED_THEOREMS = [
     'Yaql.Props.C18.isolation', 'Yaql.Props.C18.isolation_exact', 'Yaql.Props.C18.interleaving',
     'Yaql.Props.C18.isolation_benign_cache', 'Yaql.Props.C18.oblivious_of_denotation',
@@ -45,6 +54,9 @@ REQUIRED_THEOREMS = [
     'Yaql.Props.C18.objs_isolated', 'Yaql.Props.C18.objs_results', 'Yaql.Props.C18.lazy_objects_private',
     'Yaql.Props.C18.partial_publication_interferes', 'Yaql.Props.C18.parked_state_interferes',
     'Yaql.Props.C18.shared_lazy_object_interferes',
+    'Yaql.Props.C18.lists_isolated', 'Yaql.Props.C18.lists_results', 'Yaql.Props.C18.lists_results_fresh',
+    'Yaql.Props.C18.inplace_sort_interferes', 'Yaql.Props.C18.inplace_sort_changes_shared_alone',
+    'Yaql.Props.C18.inplace_restore_interferes',
     'Yaql.Props.C18.refMachine_readOnly', 'Yaql.Props.C18.eval_model_isolated',
     'Yaql.Props.C18.eval_model_returns_framed',
     'Yaql.Props.C18.storeEval_frame', 'Yaql.Props.C18.evalS_writes_private', 'Yaql.Props.C18.evalS_isolated',
@@ -196,7 +208,7 @@ class Scheduler(object):
         try:
             self.results[i] = ('ret', self.bodies[i]())
         except BaseException as e:      # noqa
-            self.results[i] = ('raise', type(e).__name__, str(e)[:200])
+            self.results[i] = ('raise', type(e).__name__, scrub(str(e))[:200])
         self.finished[i] = True
         self.local.i = None
         self._advance(i)
@@ -369,15 +381,49 @@ def make_obj():
     return Obj()
 
 
+# raw MUTABLE host values (part H): what a host stores in the prepared context without converting it
+# (`context['hosts'] = [...]`; Context.__setitem__ does not convert), what a document is made of when the engine
+# runs with yaql.convertInputData=False, what a host function returns.  Fresh equal objects per shared context.
+HOSTVALS = {
+    'hl_int': lambda: [3, 1, 2, 2, -1],
+    'hl_str': lambda: ['delta', 'alpha', 'charlie', 'bravo'],
+    'hl_rows': lambda: [{'k': 2, 'v': 'b'}, {'k': 1, 'v': 'a'}, {'k': 2, 'v': 'a'}],
+    'hl_nested': lambda: [[3, 1, 2], [2, 1], []],
+    'hl_pairs': lambda: [['b', [2, 1]], ['a', [1]]],
+    'hl_sets': lambda: [{2, 1}, {3}],
+    'hd_flat': lambda: {'b': 2, 'a': 1, 'c': 3},
+    'hd_lists': lambda: {'x': [3, 1, 2], 'y': [2, 1], 'z': {'w': [9, 8]}},
+    'hd_intkeys': lambda: {2: [2, 1], 1: {'x': [4, 3]}},
+    'hs_int': lambda: {3, 1, 2},
+    'hs_str': lambda: {'b', 'a'},
+    'ht_lists': lambda: ([2, 1], [4, 3], {'k': [6, 5]}),
+}
+
+
 class World(object):
     """one engine, the library context, and a way to make the shared prepared context afresh"""
 
-    def __init__(self):
+    def __init__(self, hostvals=False):
         import yaql
         self.yaql = yaql
-        self.engine = yaql.YaqlFactory(allow_delegates=True).create()
+        self.hostvals = hostvals
+        if hostvals:
+            # the sweep of part (H) spells every library function: bounded iterators / memory, as a host would configure
+            # statements that would not end on their own (cycle(), generate(.., true, ..)) run on engines with bounded
+            # iterators / memory; all the others on default engines (a bounded engine wraps every collection argument into
+            # a limiting generator - the functions then never see the host's list itself)
+            lim = {'yaql.limitIterators': 30, 'yaql.memoryQuota': 1000000}
+            raw = {'yaql.convertInputData': False}
+            mk = yaql.YaqlFactory(allow_delegates=True).create
+            self.engines = {0: mk(), 'raw': mk(options=raw), 'lim': mk(options=lim), 'rawlim': mk(options=dict(lim, **raw))}
+            self.engine = self.engines[0]
+            self.engine_raw = self.engines['raw']
+        else:
+            self.engine = yaql.YaqlFactory(allow_delegates=True).create()
+            self.engine_raw = None
         self.root = yaql.create_context(delegates=True)
         self.obj = make_obj()
+        self.rawdoc = None
 
     def shared(self):
         """a fresh shared prepared context: frozen documents (their hashes not yet computed), host functions,
@@ -393,6 +439,15 @@ class World(object):
         ctx['obj'] = self.obj
         ctx.register_function(lambda x: x * 2 + 1, name='hostf')
         ctx.register_function(lambda n: Src(range(n)), name='src')
+        if self.hostvals:
+            vals = dict((k, mk()) for k, mk in HOSTVALS.items())
+            for k, v in vals.items():
+                ctx[k] = v                           # Context.__setitem__ stores the object as it is
+            # the same objects as a document for engines with yaql.convertInputData=False, and behind a host function
+            self.rawdoc = vals
+            ctx['hdoc'] = vals
+            ctx.register_function(lambda name: vals[name], name='hv')
+            ctx.register_function(lambda x: x, name='idf')
         ctx2 = self.engine('def(sq, $ * $)').evaluate(context=ctx)
         return ctx2
 
@@ -411,13 +466,21 @@ def canon(v):
     return ['obj', type(v).__name__, repr(v) if type(v).__module__ in ('datetime', 'builtins') else '']
 
 
+_ADDR = re.compile(r'0x[0-9a-fA-F]{6,}')
+
+
+def scrub(msg):
+    """an exception message without memory addresses (`<function f at 0x7f..>`): they differ between two equal runs"""
+    return _ADDR.sub('0x?', msg)
+
+
 def outcome(f):
     try:
         return ['ret', canon(f())]
     except RecursionError:
         return ['raise', 'RecursionError', '']          # the message names whatever frame happened to be the last
     except Exception as e:  # noqa
-        return ['raise', type(e).__name__, str(e)[:200]]
+        return ['raise', type(e).__name__, scrub(str(e))[:200]]
 
 
 def attr_names(o):
@@ -479,6 +542,13 @@ def snapshot_diff(a, b):
             for key in ('data', 'funcs', 'excl'):
                 if x.get(key) != y.get(key):
                     xs, ys = x.get(key) or [], y.get(key) or []
+                    if key == 'data':
+                        # the variable whose value changed (a document that merely contains it is named last)
+                        dx, dy = dict(xs), dict(ys)
+                        names = sorted((n for n in set(dx) | set(dy) if dx.get(n) != dy.get(n)), key=lambda n: (n == '$hdoc', n))
+                        n = names[0]
+                        example = 'variable %s was %s, is now %s' % (n, repr(dx.get(n, '<unset>'))[:300], repr(dy.get(n, '<unset>'))[:300])
+                        return dict(layer=i, what=key, attrs_only=False, example=example)
                     only = [e for e in ys if e not in xs][:2] + [e for e in xs if e not in ys][:2]
                     # a definition that only gained attributes (no listed field changed)
                     attrs_only = key == 'funcs' and _strip_attrs(xs) == _strip_attrs(ys)
@@ -576,8 +646,8 @@ class Owners(object):
 # ====================================================================== (A) statement schedules
 
 class StmtRunner(object):
-    def __init__(self, owners=None):
-        self.world = World()
+    def __init__(self, owners=None, hostvals=False):
+        self.world = World(hostvals)
         self.base_cache = {}
         self.step_cache = {}
         self.owners = owners
@@ -593,28 +663,39 @@ class StmtRunner(object):
         if key not in self.base_cache:
             w = self.world
             ctx = w.shared()
-            self.base_cache[key] = outcome(lambda: w.engine(text).evaluate(
-                data=json.loads(json.dumps(DATAS[data_idx])), context=ctx.create_child_context()))
+            engine, data = self.route(data_idx)
+            self.base_cache[key] = outcome(lambda: engine(text).evaluate(data=data, context=ctx.create_child_context()))
         return self.base_cache[key]
+
+    def route(self, d):
+        """(engine, document) of a thread: `d` = index of one of DATAS (a private copy, default engine), or 'raw' = the
+        raw document of the CURRENT shared context - the same mutable objects for every thread - with the engine whose
+        yaql.convertInputData is off; 'lim' / 'rawlim' = the same two on engines with bounded iterators and memory"""
+        w = self.world
+        if d in ('raw', 'rawlim'):
+            return w.engines[d], w.rawdoc
+        if d == 'lim':
+            return w.engines[d], json.loads(json.dumps(DATAS[0]))
+        return w.engine, json.loads(json.dumps(DATAS[d]))
 
     def bodies(self, texts, datas, styles, ctx):
         w = self.world
         parsed = {}
-        for t, st in zip(texts, styles):
-            if st == 'shared' and t not in parsed:
+        for t, d, st in zip(texts, datas, styles):
+            if st == 'shared' and (t, d if not isinstance(d, int) else 0) not in parsed:
                 try:
-                    parsed[t] = w.engine(t)
+                    parsed[(t, d if not isinstance(d, int) else 0)] = self.route(d)[0](t)
                 except Exception:  # noqa
-                    parsed[t] = None
+                    parsed[(t, d if not isinstance(d, int) else 0)] = None
         out = []
         for t, d, st in zip(texts, datas, styles):
-            data = json.loads(json.dumps(DATAS[d]))
+            engine, data = self.route(d)
 
-            def body(t=t, st=st, data=data):
+            def body(t=t, st=st, data=data, engine=engine, pk=(t, d if not isinstance(d, int) else 0)):
                 child = ctx.create_child_context()
-                stmt = parsed.get(t) if st == 'shared' else None
+                stmt = parsed.get(pk) if st == 'shared' else None
                 if stmt is None:
-                    stmt = w.engine(t)
+                    stmt = engine(t)
                 return canon(stmt.evaluate(data=data, context=child))
             out.append(body)
         return out, parsed
@@ -643,6 +724,10 @@ class StmtRunner(object):
         before = snapshot(ctx, stop)
         bodies, parsed = self.bodies(texts, datas, styles, ctx)
         nodes_before = dict((t, stmt_state(p)) for t, p in parsed.items() if p is not None)
+        if self.world.hostvals:
+            case_extra = dict(hostvals=True)
+        else:
+            case_extra = {}
         s = Scheduler(bodies, timeout=30.0)
         if self.owners:
             nv = len(self.owners.violations)
@@ -654,13 +739,13 @@ class StmtRunner(object):
         if s.hung:
             raise HarnessProblem('threads did not finish: texts %r schedule %r' % (texts, schedule))
         trace = list(s.trace)
-        case = dict(kind='stmt', texts=texts, datas=datas, styles=styles, schedule=trace)
+        case = dict(kind='stmt', texts=texts, datas=datas, styles=styles, schedule=trace, **case_extra)
         for i, (t, d) in enumerate(zip(texts, datas)):
             want = self.baseline(t, d)
             got = list(results[i]) if results[i] is not None else None
             if got != want:
                 return dict(kind='oracle', key='interference',
-                            what='thread %d evaluating %r on data #%d under schedule %r (other threads: %r) got %r; '
+                            what='thread %d evaluating %r on data #%s under schedule %r (other threads: %r) got %r; '
                                  'evaluated alone: %r' % (i, t, d, trace, [x for j, x in enumerate(texts) if j != i], got, want),
                             case=case), s
         diff = snapshot_diff(before, snapshot(ctx, stop))
@@ -673,7 +758,7 @@ class StmtRunner(object):
             if p is not None and stmt_state(p) != nodes_before[t]:
                 return dict(kind='mismatch', key='statement-written',
                             what='expression nodes of the shared parsed statement %r gained/lost attributes during evaluation: %r'
-                                 % (t, [x for x in stmt_state(p) if x not in nodes_before[t]][:3]), case=case), s
+                                 % (t[0], [x for x in stmt_state(p) if x not in nodes_before[t]][:3]), case=case), s
         if self.owners and len(self.owners.violations) > nv:
             v = self.owners.violations[nv]
             return dict(kind='mismatch', key='not-owner-write',
@@ -1495,7 +1580,9 @@ def run(env, res):
                 'interleavings for short traces, <=3-preemption systematic ones for medium, random for long; (B) yaql.eval '
                 'with cold/warm module caches; (C) programs over the real lazy objects / FrozenDict hash / yaql.eval / '
                 'dispatch vs the Lean machine under the same trace; distinct = distinct (statements, documents, styles, '
-                'observed trace); (F) the same at line granularity; non-trivial = at least two different (statement, document) '
+                'observed trace); (F) the same at line granularity; (H) every library function x collection parameter over raw '
+                'mutable host lists / dicts / sets shared through the prepared context (variable, unconverted document, host '
+                'function result), alone and 2-3 threads on the same object; non-trivial = at least two different (statement, document) '
                 'pairs and >= 2 thread switches')
     hist = {}
     res.extra['histogram'] = hist
@@ -1517,6 +1604,9 @@ def run(env, res):
         try:
             jobs = [pool.apply_async(part_a, (env['seed'], tier, i, nsh, a_deadline)) for i in range(nsh)]
             fjob = pool.apply_async(part_f, (env['seed'], tier, a_deadline))
+            # (H) runs here, in the parent, while the workers do (A) and (F)
+            from props import c18lists
+            hout = c18lists.part_h(env['seed'], tier, a_deadline - 2)
             outs = []
             for j in jobs:
                 try:
@@ -1530,11 +1620,15 @@ def run(env, res):
         finally:
             pool.terminate()
         hist['F_line_granularity'] = fout['stats']
+        hist['H_shared_host_values'] = hout['stats']
         res.traces += fout['stats'].get('schedules', 0)
-        for o in outs + [fout]:
-            if o is fout:
+        res.traces += sum(hout['stats'].get(k, 0) for k in ('alone_checked', 'schedules_exhaustive', 'schedules_preempt', 'schedules_random'))
+        for o in outs + [fout, hout]:
+            if o is fout or o is hout:
                 for sig, nt in o['sigs']:
                     res.case(sig, nontrivial=nt)
+                for smp in o['samples'][:1]:
+                    res.samples.append(smp)
                 for f in o['fails']:
                     report(f)
                 continue
@@ -1552,6 +1646,10 @@ def run(env, res):
             part_b(env, res, rng, hist, time.time() + (8 if tier == 'quick' else 45))
         if not hard(res):
             part_c(env, res, rng, hist, time.time() + (15 if tier == 'quick' else 90))
+        if not hard(res):
+            # (C2) the real order_by over Python lists shared by the threads vs Model/SharedList.lean under the same trace
+            from props import c18lists
+            c18lists.part_c2(env, res, rng, hist, time.time() + (4 if tier == 'quick' else 40))
         if not hard(res):
             part_d(env, res, rng, hist)
         if not hard(res):
@@ -1837,7 +1935,7 @@ def replay(env, res, case):
         owners.install()
         un = install_call_point()
         try:
-            R = StmtRunner(owners)
+            R = StmtRunner(owners, hostvals=bool(case.get('hostvals')))
             f, s = R.run(case['texts'], case['datas'], case['styles'], case['schedule'], full=bool(case.get('full')))
         finally:
             un()
@@ -1901,6 +1999,13 @@ def replay(env, res, case):
         res.case(('replay',), True)
         if f is not None:
             res.fail(f['kind'], f['key'], f['what'], f['case'])
+    elif kind == 'lists':
+        from props import c18lists
+        lists, s, real = c18lists.run_list_case(case['case'], case['schedule'])
+        f = c18lists.compare_lists(env, case['case'], [(list(s.trace), real, [[list(r) for r in l] for l in lists])])
+        res.case(('replay',), True)
+        if f is not None:
+            res.fail(f['kind'], f['key'], f['what'], f['case'])
     elif kind == 'stress':
         part_d(env, res, common.make_rng(env['seed'], 'C18'), {})
     return res
@@ -1919,10 +2024,19 @@ LEVEL_TEXT = ('Lean 4 theorems over a generic interleaving semantics (shared com
               'utils.memorize - objs_isolated / objs_results (results are an explicit schedule-independent function) and '
               'lazy_objects_private (with the exact condition: no lazy object reached through the shared context); negative '
               'witnesses for partial publication (pre-fix FrozenDict hash), parked per-call state, shared lazy objects. '
+              'Raw mutable host values stored in the shared context (Model/SharedList: orderBy over a shared Python list, one '
+              'step per key-selector dispatch): the copying sort of the code is read-only, so lists_isolated / lists_results '
+              '(every schedule: lists unchanged, results = an explicit function of the initial lists); sorting the shared '
+              'object in place interferes (inplace_sort_interferes: a concurrent reader sees the list CPython empties during '
+              'list.sort; inplace_sort_changes_shared_alone; inplace_restore_interferes: restoring the order afterwards only '
+              'repairs the context, not the reader). '
               'C18Gen.no_shared_writes: every write site of the live yaql sources (AST walk, regenerated per run) is in an '
               'allowed class. The real code runs under a deterministic thread scheduler at dispatch / iterator-step / '
               'key-hash granularity (exhaustive, <=3 preemptions, random) and at line granularity (seeded) against the sequential baseline, the shared '
               'context snapshot, the Lean machine under the same trace, and free-running under a 1 us switch interval; '
+              'a sweep of every library function over every parameter that admits a raw list / dict / set runs alone and 2-3 '
+              'at a time on the SAME host object (variable of the shared context, unconverted document, host function result), '
+              'snapshot of the variable values included; '
               'with instrumented context classes, generated programs of the core fragment evaluated alone and 2-4 at a time '
               'write only contexts their own evaluation created (never the shared one, never another thread\'s, never one '
               'that already has a child), and the tree of contexts created / names written is the store model\'s.')
